@@ -187,6 +187,7 @@ type orderRun struct {
 	ProcReads  int // how often the library asked for the number of processors
 	Spawned    int // goroutines the library started during the call
 	Deadlock   string
+	Second     *Outcome // duo runs: the second caller's outcome
 }
 
 // envFault is what the environment of one call does besides map order: the
@@ -200,6 +201,16 @@ type envFault struct {
 	Sched      *schedFault          `json:"schedule,omitempty"`
 	// Tape: the map-order tape of the call (the call is always a fresh object's first)
 	Tape []uint64 `json:"tape,omitempty"`
+	// Duo: a second caller makes the same call on the same object at the same
+	// time, with order tape Duo.Tape, under the given time slice and pick stream;
+	// the outcome reported is the worse of the two (the one that differs)
+	Duo *duoFault `json:"second_caller,omitempty"`
+}
+
+type duoFault struct {
+	Quantum int      `json:"quantum"`
+	Pick    uint64   `json:"pick"`
+	Tape    []uint64 `json:"tape,omitempty"`
 }
 
 func (e envFault) orderOnly() bool {
@@ -227,6 +238,9 @@ func (e envFault) String() string {
 	}
 	if len(e.Tape) > 0 {
 		parts = append(parts, fmt.Sprintf("map order tape %v", e.Tape))
+	}
+	if e.Duo != nil {
+		parts = append(parts, fmt.Sprintf("a second caller making the same call on the same object at the same time (time slice %d, pick stream %d, its order tape %v)", e.Duo.Quantum, e.Duo.Pick, e.Duo.Tape))
 	}
 	if e.Sched != nil {
 		parts = append(parts, fmt.Sprintf("the library's own goroutines scheduled with time slice %d, pick stream %d", e.Sched.Quantum, e.Sched.Pick))
@@ -327,7 +341,64 @@ func (cr *caseRunner) runEnv(env envFault) orderRun {
 	if cr.c.Prelude != nil {
 		runOrder(obj, Build(*cr.c.Prelude), cr.c.Op, nil)
 	}
+	if env.Duo != nil {
+		return runDuo(obj, cr.datum, cr.c.Op, env)
+	}
 	return runOrderEnv(obj, cr.datum, cr.c.Op, env.Tape, env)
+}
+
+// runDuo: two callers make the same call on one object under the cooperative
+// scheduler. What one call returns must not depend on the other being there.
+func runDuo(obj *Object, datum interface{}, op string, env envFault) orderRun {
+	ctxs := [2]*verifsim.OpCtx{{Obj: 0, Tape: env.Tape, Limit: 1 << 20}, {Obj: 0, Tape: env.Duo.Tape, Limit: 1 << 20}}
+	var outs [2]Outcome
+	deadlock := ""
+	dead := make(chan struct{})
+	verifsim.SetAbort(func(reason string) {
+		deadlock = reason
+		close(dead)
+		verifsim.Abandon()
+	})
+	verifsim.SetHardCap(verifsim.Steps() + 50000000)
+	verifsim.StartRun(2, 0, env.Duo.Quantum, nil)
+	verifsim.SetPick(env.Duo.Pick)
+	done := make(chan struct{}, 2)
+	for t := 0; t < 2; t++ {
+		go func(t int) {
+			verifsim.TaskEnter(t)
+			verifsim.BeginOp(ctxs[t])
+			if op == "exec" {
+				outs[t] = obj.Execute(datum)
+			} else {
+				outs[t] = obj.Evaluate(datum)
+			}
+			verifsim.EndOp()
+			verifsim.TaskExit(t)
+			done <- struct{}{}
+		}(t)
+	}
+	finished := 0
+	for finished < 2 && deadlock == "" {
+		select {
+		case <-done:
+			finished++
+		case <-dead:
+		}
+	}
+	if deadlock == "" {
+		verifsim.WaitChildren()
+	}
+	verifsim.SetHardCap(0)
+	verifsim.SetAbort(nil)
+	verifsim.BeginMain()
+	if deadlock != "" {
+		return orderRun{Out: Outcome{Op: op, Panic: "simulator: " + deadlock + " between two callers"}, Deadlock: deadlock}
+	}
+	// report the caller whose outcome differs from the other's, if any; the
+	// exploring loop compares with the single-caller outcome anyway
+	r := orderRun{Out: outs[0], Steps: ctxs[0].Steps, N: ctxs[0].NDecisions}
+	r.Second = &outs[1]
+	return r
 }
 
 // history returns the tapes that ran on the shared object before the last one.
@@ -589,6 +660,27 @@ func RunC14Case(c C14Case, seed uint64, tier string) C14Result {
 			if !sameC14(run.Out, base.Out) {
 				e := envFault{Tape: t}
 				res.Violation = &C14Diff{TapeA: []uint64{}, TapeB: t, OutA: base.Out, OutB: run.Out, Env: &e}
+				return res
+			}
+		}
+	}
+	// two callers making the same call on one object at the same time: the
+	// outcome of a call does not depend on who else is calling (C12 explores
+	// shared objects at large; here the order-sensitive cases get a second caller)
+	if res.Nontrivial && base.N > 0 {
+		n0 := base.Decisions[0].N
+		for i := 0; i < 4; i++ {
+			env := envFault{Duo: &duoFault{Quantum: []int{1, 2, 3, 7}[i], Pick: uint64(i%2) * (1 + r.Uint64()%1000000),
+				Tape: [][]uint64{{verifsim.CodeReverse}, {verifsim.CodeRotate0 + 1}, {verifsim.CodeFirst0 + uint64(n0-1)}, {verifsim.CodeReverse}}[i]}}
+			run := cr.runEnv(env)
+			res.EnvRuns++
+			bad := run.Out
+			if sameC14(run.Out, base.Out) && run.Second != nil {
+				bad = *run.Second
+			}
+			if !sameC14(bad, base.Out) {
+				e := env
+				res.Violation = &C14Diff{TapeA: []uint64{}, TapeB: []uint64{}, OutA: base.Out, OutB: bad, Env: &e}
 				return res
 			}
 		}
@@ -984,6 +1076,9 @@ func replayC14(cfg WorkerCfg) int {
 		cr := newCaseRunner(doc.Case)
 		a := cr.runEnv(envFault{})
 		bb := cr.runEnv(*doc.Diff.Env)
+		if bb.Second != nil && sameC14(a.Out, bb.Out) {
+			bb.Out = *bb.Second // duo: either caller may be the one that differs
+		}
 		cfg.Emit(map[string]interface{}{"type": "replay", "reproduced": !sameC14(a.Out, bb.Out), "outcome_a": a.Out, "outcome_b": bb.Out, "clock_reads": bb.ClockReads, "rand_draws": bb.RandDraws})
 		return 0
 	}
